@@ -111,6 +111,16 @@ fn real_main(args: &[String]) -> i32 {
       let reseeds = args.get(4).and_then(|s| s.parse().ok()).unwrap_or(0);
       driver::exec_plan_main(sim, &file, &mode, reseeds)
     }
+    "serve" => {
+      // the real service, for the loopback conformance pass
+      let port = args.get(1).cloned().unwrap_or_else(|| "22022".to_string());
+      let r = actix_rt::System::new("dmnsim-serve").block_on(dmntk_server::start_server(Some("127.0.0.1".to_string()), Some(port), None));
+      if r.is_ok() {
+        0
+      } else {
+        2
+      }
+    }
     "debug-builds" => {
       debug_builds();
       0
